@@ -82,7 +82,7 @@ CLAIMS = {
              "model. Kernel-checked so far: what a character reference denotes for every number, that the reported items are an "
              "abstraction of one derivation tree spelling exactly the consumed text, determinism. The completeness statement "
              "`parseDoc (render st d) = ok (denote d, [])` is stated and not yet proved (partial).",
-        note="Partial proof; raw view only so far (merged-text view pending). Oracle = tools/gen/xmlgen.py denote. Second oracle for "
+        note="Partial proof; the infoset is compared in the raw view (the merged-text view is what the XPath checks C05-C10 compare). Oracle = tools/gen/xmlgen.py denote. Second oracle for "
              "acceptance: the REVIEWED grammar (tools/ref/xml.json, committed; regenerated into Gen/XmlGrammarRef.lean on every run): "
              "random derivations of it and of its parts, with keyword-prefixed names and one-character neighbours, must be accepted by "
              "the real parser whenever the model over the reviewed grammar accepts them. The reviewed snapshot is updated by hand "
@@ -207,8 +207,9 @@ CLAIMS = {
              "`OneRoot d` (at most one element and one document type at top level) is proved for every document the model's parser "
              "delivers (`parsed_is_oneRoot`: the element half from `absDocument`, the document-type half by inversion of the derivation "
              "of the translated `prolog` production), so `one_element_one_doctype_parsed` has no hypothesis left. Sibling "
-             "navigation (previous/next) is read off the child list in the model and not separately stated. Foreign documents and "
-             "document fragments are not in the generated histories. Trusted: Lean kernel, model Dom.lean, harness `dom`.",
+             "navigation (previous/next) is read off the child list in the model and not separately stated. Nodes of a second document are exercised "
+             "by C13's `foreign` stream (a monitor against the specified exception classes; the model holds one document); document "
+             "fragments are a stub in the code (no NodeMut) and are not generated. Trusted: Lean kernel, model Dom.lean, harness `dom`.",
         technique="Lean 4 proof (invariant by induction over operation sequences; counting lemmas over the forest) + monitor on the "
                   "implementation's navigation views + differential correspondence of edit histories",
         ref="DESIGN.md section 0 and section 6 C12"),
